@@ -37,6 +37,8 @@ def run(ctx):
     ctx.rule("R5.vacancy", "every path from a length change of `slabs` to return passes update_slab_count; full/vacant transitions reach update_slab_status on the guarded arm", floor=6)
     ctx.rule("R6.dup-then-forget", "into_parts: ptr::read of self fields ... mem::forget(self) with no may-unwind call in between, on every path; Drop impls ptr::read only glue-free fields", floor=8)
     ctx.rule("R7.removal-authority", "RawOpaquePool::remove / remove_unpin callers are the table of unique-handle Drop, into_inner and Remover Drop impls (plus the raw/blind forwarding wrappers)", floor=10)
+    ctx.rule("R10.drop-policy-provenance", "every slab is created with the owning pool's slab_layout and drop_policy fields; every pool constructor/builder hands the configured policy on unchanged", floor=5)
+    ctx.rule("R11.lowest-vacancy-cache", "the vacancy cache always names the LOWEST slab with a vacancy: a new vacancy below the cached index (or with no cached index) replaces it - the refill search after a slab fills only looks forward", floor=2)
     ctx.rule("R9.shrink-keeps-live", "shrink_to_fit only drops trailing EMPTY slabs (a non-empty slab dropped = objects destroyed while handles exist); same rule as C01.R3", floor=1, shape_dependent=True)
     ctx.rule("R8.slab-drop", "Slab::drop: emptiness read first; every slot dropped under catch_unwind in a loop over 0..capacity; dealloc on every path before resume_unwind/policy assert", floor=4)
 
@@ -417,6 +419,8 @@ def run(ctx):
 
     from .c01 import shrink_rule
     shrink_rule(ctx, prog, "R9.shrink-keeps-live")
+    policy_rules(ctx, prog)
+    vacancy_cache_rules(ctx, prog)
 
     # ---------------- R8 Slab::drop
     sd = prog.one("<infinity_pool::opaque::slab::Slab as std::ops::Drop>::drop")
@@ -475,3 +479,166 @@ def run(ctx):
         ok = g_pan and g_pol and g_emp and de[0][0] in dom[pbb] if de else False
         det = f"policy panic guarded by thread::panicking()={g_pan}, drop_policy={g_pol}, saved emptiness flag={g_emp}"
     ctx.ob("R8.slab-drop", "policy-panic-guards", ok, sd.loc(), det)
+
+
+def deep_slice(prog, body, op, depth=3):
+    """Slice of `op`; upvars of a closure body are followed into the capture operands of the parent."""
+    from ..analysis import closure_capture_ops
+    sl = Slice(body).run(op)
+    out = {"fields": set(sl["fields"]), "args": {(body.key, a) for a in sl["args"]}, "consts": list(sl["consts"]),
+           "calls": [(k, t) for k, _bb, t in sl["calls"]]}
+    if body.is_closure and sl["upvars"] and depth:
+        parent = None
+        pk = body.key.rsplit("::{closure", 1)[0]
+        for b in prog.bodies:
+            if b.key == pk:
+                parent = b
+        if parent is not None:
+            for _bb, cops in closure_capture_ops(parent, body.key):
+                for i in sl["upvars"]:
+                    if i < len(cops):
+                        d = deep_slice(prog, parent, cops[i], depth - 1)
+                        out["fields"] |= d["fields"]
+                        out["args"] |= d["args"]
+                        out["consts"] += d["consts"]
+                        out["calls"] += d["calls"]
+    return out
+
+
+def policy_rules(ctx, prog):
+    RID = "R10.drop-policy-provenance"
+    sites = who_calls(prog, "opaque::slab::Slab::new")
+    if not sites:
+        ctx.missing(RID, "Slab::new call sites")
+    for b, bb, t in sites:
+        ctx.fn(b)
+        d0 = deep_slice(prog, b, t["args"][0])
+        d1 = deep_slice(prog, b, t["args"][1])
+        ok0 = any(f.endswith("RawOpaquePool::slab_layout") for f in d0["fields"])
+        ok1 = any(f.endswith("RawOpaquePool::drop_policy") for f in d1["fields"]) and \
+            not any(k.split("::")[-1] in ("default", "new") for k, _t in d1["calls"]) and not [c for c in d1["consts"] if "variant" in c or "val" in c]
+        ctx.ob(RID, f"Slab::new@{b.key.split('::', 1)[1]}", ok0 and ok1, b.loc(t["span"]),
+               f"layout argument from self.slab_layout: {ok0}; policy argument from self.drop_policy (no default/constant): {ok1}")
+    # constructors: <Pool>::new_inner aggregates take the policy from a parameter
+    for adt, fld in (("opaque::pool_raw::RawOpaquePool", "drop_policy"), ("blind::pool_raw::RawBlindPool", "drop_policy")):
+        for b in prog.bodies:
+            for blk in b.blocks:
+                for st in blk.stmts:
+                    if st["k"] == "assign" and st["rv"]["k"] == "aggr" and str(st["rv"].get("adt", "")).endswith(adt):
+                        names = st["rv"].get("fields") or []
+                        if fld not in names:
+                            continue
+                        ctx.fn(b)
+                        sl = Slice(b).run(st["rv"]["ops"][names.index(fld)])
+                        ok = bool(sl["args"]) and not sl["calls"] and not [c for c in sl["consts"] if "variant" in c or "val" in c]
+                        ctx.ob(RID, f"{adt.split('::')[-1]}.drop_policy@{b.name}", ok, b.loc(),
+                               f"the pool's drop_policy field is the constructor parameter unchanged: {ok}")
+    # builders/forwarders: whoever calls new_inner or <builder>.drop_policy(x) from inside the crate's pool code passes a field/param on
+    n = 0
+    for b in prog.bodies:
+        if "::tests::" in b.key:
+            continue
+        for bb, t in b.calls():
+            c = t["callee"]
+            k = callee_key(c)
+            is_setter = c.get("method") == "drop_policy" and "builders::" in k and len(t["args"]) == 2
+            is_ctor = c.get("method") == "new_inner" and ("pool_raw::RawOpaquePool" in k or "pool_raw::RawBlindPool" in k or "pool_raw::RawPinnedPool" in k)
+            if not (is_setter or is_ctor):
+                continue
+            if "builders::" in b.key and c.get("method") == "drop_policy":
+                continue
+            arg = t["args"][1] if is_setter else t["args"][-1]
+            d = deep_slice(prog, b, arg)
+            from_cfg = any(f.endswith("::drop_policy") for f in d["fields"]) or bool(d["args"])
+            consts = [c2 for c2 in d["consts"] if "variant" in c2 or "val" in c2]
+            defaults = [k2 for k2, _t in d["calls"] if k2.split("::")[-1] == "default"]
+            # a pool constructor that has no policy to forward (e.g. `new()`) legitimately uses the default
+            has_policy_source = any("DropPolicy" in l["ty"]["s"] for l in b.locals[1:b.arg_count + 1])
+            own = prog.adts.get(b.impl_adt or "", {})
+            owner_has_field = any(f.get("name") == "drop_policy" for v in own.get("variants", []) for f in v.get("fields", []))
+            if not from_cfg and not owner_has_field and not has_policy_source:
+                continue
+            n += 1
+            ok = from_cfg and not consts and not defaults
+            ctx.fn(b)
+            ctx.ob(RID, f"forward@{b.key.split('::', 1)[1]}|{c.get('method')}", ok, b.loc(t["span"]),
+                   f"policy handed on derives from a configured field/parameter: {from_cfg}; constants/defaults mixed in: {bool(consts or defaults)}")
+    if n == 0:
+        ctx.missing(RID, "policy forwarders (builder.drop_policy / new_inner)")
+
+
+def vacancy_cache_rules(ctx, prog):
+    RID = "R11.lowest-vacancy-cache"
+    b = prog.one("opaque::vacancy_tracker::VacancyTracker::update_slab_status")
+    if b is None:
+        ctx.missing(RID, "VacancyTracker::update_slab_status")
+        return
+    ctx.fn(b)
+    # writes of next_vacancy whose value is Some(slab_index)
+    ws = []
+    for bb, i, st in field_assigns(b, "VacancyTracker::next_vacancy"):
+        rv = st["rv"]
+        if rv["k"] == "use":
+            l = op_local(rv["op"])
+            d = b.unique_def(l) if l is not None else None
+            if d and d[2] == "assign" and d[3]["rv"]["k"] == "aggr":
+                rv = d[3]["rv"]
+        if rv["k"] == "aggr" and rv.get("variant") == "Some":
+            args = set()
+            for o in rv["ops"]:
+                args |= Slice(b, through_calls=False).run(o)["args"]
+            if args == {2}:
+                ws.append((bb, st))
+    # the forward-only refill: range start = slab_index + 1
+    fwd = False
+    for bb, t in b.calls():
+        if t["callee"].get("method") in ("wrapping_add", "checked_add", "saturating_add"):
+            c = resolve_const(b, t["args"][1]) if len(t["args"]) > 1 else None
+            if c and c.get("val") == 1 and Slice(b, through_calls=False).run(t["args"][0])["args"] == {2}:
+                fwd = True
+    none_arm = False
+    lower_arm = False
+    bad = []
+    for bb, st in ws:
+        gs = switch_guards(b, bb)
+        # must be on the has_vacancy == true arm
+        on_true = any(g["src"].get("kind") == "local" and g["src"].get("local") == 3 and 0 not in g["allowed"] for g in gs)
+        if not on_true:
+            continue
+        is_none = False
+        is_lt = False
+        for g in gs:
+            src = g["src"]
+            pl = guard_src_place(src)
+            if src.get("kind") == "discr" and pl and any(f.endswith("VacancyTracker::next_vacancy") for f in place_fields(pl)):
+                if g["allowed"] and 1 not in g["allowed"]:
+                    is_none = True
+            if src.get("kind") == "call" and src["term"]["callee"].get("method") in ("is_none", "is_some") and \
+                    any(f.endswith("VacancyTracker::next_vacancy") for f in Slice(b).run(src["term"]["args"][0])["fields"]):
+                truth = bool(g["allowed"]) and 0 not in g["allowed"]
+                if truth == (src["term"]["callee"].get("method") == "is_none") and g["allowed"]:
+                    is_none = True
+            dl = g.get("discr_local")
+            d = b.unique_def(dl) if dl is not None else None
+            if d and d[2] == "assign" and d[3]["rv"]["k"] == "binop" and d[3]["rv"]["op"] in ("Lt", "Gt", "Le", "Ge"):
+                rv = d[3]["rv"]
+                a2 = Slice(b, through_calls=False).run(rv["a"])
+                b2 = Slice(b, through_calls=False).run(rv["b"])
+                a_idx = a2["args"] == {2} and not any(f.endswith("next_vacancy") for f in a2["fields"])
+                b_idx = b2["args"] == {2} and not any(f.endswith("next_vacancy") for f in b2["fields"])
+                op = rv["op"]
+                if b_idx and not a_idx:
+                    op = {"Lt": "Gt", "Gt": "Lt", "Le": "Ge", "Ge": "Le"}[op]
+                truth = 0 not in g["allowed"]
+                if not truth:
+                    op = {"Lt": "Ge", "Ge": "Lt", "Gt": "Le", "Le": "Gt"}[op]
+                if op in ("Lt", "Le"):
+                    is_lt = True
+                else:
+                    bad.append(f"cache overwritten when slab_index {op} cached")
+        none_arm = none_arm or is_none
+        lower_arm = lower_arm or is_lt
+    ctx.ob(RID, "new-vacancy.no-cache", none_arm, b.loc(), f"has_vacancy arm stores Some(slab_index) when no index is cached: {none_arm}")
+    ctx.ob(RID, "new-vacancy.lower-replaces", lower_arm and not bad, b.loc(),
+           f"has_vacancy arm stores Some(slab_index) when slab_index < cached index: {lower_arm}; refill search is forward-only (slab_index+1..): {fwd}"
+           + (f"; {bad}" if bad else ""))
